@@ -3,9 +3,8 @@ import sys; sys.path.insert(0, sys.argv[1] if len(sys.argv) > 1 else "/repo")
 import threading, warnings, os
 warnings.simplefilter("ignore")
 from statemachine import StateMachine, State
-import statemachine.engines.sync as S, statemachine.engines.base as B, statemachine.event as E
-
-TARGET = {S.__file__, B.__file__, E.__file__}
+import statemachine
+PKG = os.path.dirname(os.path.abspath(statemachine.__file__)) + os.sep
 
 class Sched:
     """Only one worker runs at a time. At every traced line in TARGET files the running worker asks
@@ -23,7 +22,7 @@ class Sched:
                 self.point(wid, f"{os.path.basename(frame.f_code.co_filename)}:{frame.f_lineno}")
             return local
         def glob(frame, event, arg):
-            if event == "call" and frame.f_code.co_filename in TARGET:
+            if event == "call" and frame.f_code.co_filename.startswith(PKG):
                 return local
             return None
         return glob
@@ -71,7 +70,7 @@ nsteps = s.step
 print("steps:", nsteps, "log", sm.log)
 stranded = []
 for k in range(1, nsteps+1):
-    for back in [None] + list(range(k+1, k+40)):
+    for back in [None]:  # (the defect shows with a single pre-emption; switch-backs are explored by the C06 check itself)
         sm = M()
         pre = {k: 1}
         if back: pre[back] = 0
